@@ -1,4 +1,5 @@
 import S2T.Lemmas.OoxmlDocx
+import S2T.Lemmas.OoxmlAttrs
 import S2T.Lemmas.OoxmlHtml
 import S2T.Lemmas.OoxmlPptx
 import S2T.Spec.OoxmlDeck
@@ -69,6 +70,29 @@ theorem C02_docx_fidelity_py (d : Doc) :
   C02_docx_fidelity _ gen_ws_ok d
 
 
+/-- **DOCX: no attribute is read.**  Two `w:body` contents that differ only in attributes - at any depth, on any
+    element: the `w:type` / `w:clear` of a `w:br`, `xml:space` of a `w:t`, revision ids of runs / paragraphs / rows,
+    id / author / date of tracked changes, `Requires` of `mc:Choice`, VML styles - have the same full text.  (The walk
+    dispatches on tags only; the dressed documents of the correspondence tie this to the real extractor.) -/
+theorem C02_docx_attr_blind (ws : Char → Bool) (a b : List Xml) (h : SameButAttrs a b) :
+    Docx.fullText ws a = Docx.fullText ws b :=
+  Docx.fullText_attr_blind ws a b h
+
+/-- **DOCX fidelity for every attribute dressing of the rendered document**: a page / column / text-wrapping break
+    is a break, whatever else the producer recorded on the elements -/
+theorem C02_docx_fidelity_any_attrs (ws : Char → Bool) (hw : WsOk ws) (d : Doc) (kids : List Xml)
+    (h : SameButAttrs kids (Docx.renderBody d)) :
+    words ws (Docx.fullText ws kids) = bodyWords fmtDocx ws d := by
+  rw [C02_docx_attr_blind ws kids _ h]; exact C02_docx_fidelity ws hw d
+
+/-- the hypothesis is satisfiable non-trivially: 'A', a PAGE break in a run of its own, 'B' in one paragraph -/
+example : SameButAttrs
+    [el .wP [el (Docx.o "w:pPr") [Docx.prop "w:pStyle" []], el .wR [el (Docx.o "w:rPr") [], leaf .wT ['A']],
+      el .wR [.node .wBr [("w:type".toList, "page".toList)] [] []], el .wR [el (Docx.o "w:rPr") [], leaf .wT ['B']]],
+     el (Docx.o "w:sectPr") []]
+    (Docx.renderBody { body := [.para [] [.text ['A'], .br, .text ['B']]] }) := by
+  simp [SameButAttrs, eraseL, Xml.erase, Docx.renderBody, Docx.renderBs, Docx.renderB, Docx.renderIs, Docx.renderI, el, leaf,
+    Docx.prop]
 
 /-- **DOCX: nothing leaked, nothing invented.**  Every character of every word of the output is a boundary
     blank or a character of a *visible* leaf of the body (`leavesBs` does not contain the text of tracked
